@@ -5,8 +5,8 @@ RFC parsers of quicparse.py; nothing is taken from the implementation's own even
 import quicparse as qp
 
 ATTACKER = "10.66.66.66:6666"
-SPOOFER = "10.77.77.77:7777"
-SPOOFER_NET = "10.77.77."         # spoof_addrs > 1: 10.77.77.77, .78, ...      # source address of genuine client datagrams re-sent from elsewhere (`spoof_pm`)
+SPOOFER = "1.0.77.77:7777"
+SPOOFER_NET = "1.0.77."         # spoof_addrs > 1: 1.0.77.77, .78, ...      # source address of genuine client datagrams re-sent from elsewhere (`spoof_pm`)
 U32 = 2**32 - 1
 # actions of records that were put on the wire by the adversary, not by the endpoint named in `src`
 FORGED = ("replay", "inject", "dup", "spoof")
